@@ -74,3 +74,94 @@ Definition deep_calls (k : nat) (top per n len : Z) : ensured :=
 (** the same with the depth in binary (the extracted driver is asked about depths of millions) *)
 Definition deep_outcome (k : Z) (top per n len : Z) : ensured :=
   snd (Z.iter k (deep_step per n) (top, Enough len)).
+
+(** The same recursion with the stack length and the failure remembered: state = (top of the next
+    stack check - after a failure: of the failed one -, stack length, out of stack?). *)
+Definition trace_step (per n : Z) (st : Z * Z * bool) : Z * Z * bool :=
+  let '(t, l, failed) := st in
+  if failed then st else
+  match ensure_stack true t n l with
+  | OutOfStack => (t, l, true)
+  | Enough l' => ((t + per)%Z, l', false)
+  end.
+
+Definition deep_trace (k : nat) (top per n len : Z) : Z * Z * bool :=
+  Nat.iter k (trace_step per n) (top, len, false).
+
+Definition deep_trace_z (k : Z) (top per n len : Z) : Z * Z * bool :=
+  Z.iter k (trace_step per n) (top, len, false).
+
+(** what a context keeps between two calls of sexp_apply: the top and the length of its stack *)
+Record cstack := mkcs { ctop : Z; clen : Z }.
+
+(** sexp_apply(ctx, proc, args) running a non-tail recursion of depth [k] on the context's own stack.
+    Entry (vm.c:1171): top = sexp_context_top(ctx); the first stack check of the recursion happens
+    [c0] slots higher.  Exit (vm.c:2436-2438): a value comes back through the RET of every frame and
+    the final resumer, and the exit's [--top] is the entry top again.  The out-of-stack object leaves
+    the loop from inside the failing check (vm.c:1059 [goto end_loop]) with [top] still at that
+    check: the pinned exit stores [top - 1] into the context, the repaired one
+    (fixes/C05-apply-exit-top.patch) the entry top.  Result: (a value came back?, the context). *)
+Definition apply_exit (fixed : bool) (entry : Z) (tr : Z * Z * bool) : bool * cstack :=
+  let '(t, l, failed) := tr in
+  if failed then (false, mkcs (if fixed then entry else (t - 1)%Z) l) else (true, mkcs entry l).
+
+Definition apply_deep (fixed : bool) (c0 per n : Z) (c : cstack) (k : nat) : bool * cstack :=
+  apply_exit fixed (ctop c) (deep_trace k (ctop c + c0)%Z per n (clen c)).
+
+Definition apply_deep_z (fixed : bool) (c0 per n : Z) (c : cstack) (k : Z) : bool * cstack :=
+  apply_exit fixed (ctop c) (deep_trace_z k (ctop c + c0)%Z per n (clen c)).
+
+(** a sequence of such calls on the same context *)
+Fixpoint session (fixed : bool) (c0 per n : Z) (c : cstack) (ks : list nat) : list bool * cstack :=
+  match ks with
+  | [] => ([], c)
+  | k :: r =>
+      let '(ok, c1) := apply_deep fixed c0 per n c k in
+      let '(oks, c2) := session fixed c0 per n c1 r in
+      (ok :: oks, c2)
+  end.
+
+Fixpoint session_z (fixed : bool) (c0 per n : Z) (c : cstack) (ks : list Z) : list (bool * cstack) :=
+  match ks with
+  | [] => []
+  | k :: r =>
+      let oc := apply_deep_z fixed c0 per n c k in
+      oc :: session_z fixed c0 per n (snd oc) r
+  end.
+
+(** the elements of a proper list in the heap (what sexp_length and the copy loop of APPLY1 walk
+    over); a proper list in a heap of m objects has at most m pairs, the fuel covers them *)
+Fixpoint list_of_heap (fuel : nat) (h : list hobj) (v : value) : option (list value) :=
+  match fuel with
+  | O => None
+  | S f =>
+      match v with
+      | VLit LNil => Some []
+      | VPair a =>
+          match nth_error h a with
+          | Some (HPair x d) =>
+              match list_of_heap f h d with Some r => Some (x :: r) | None => None end
+          | _ => None
+          end
+      | _ => None
+      end
+  end.
+
+(** vm.c:1351-1380 SEXP_OP_APPLY1 (the tail-only opcode behind [apply]): stack = procedure, argument
+    list, ...; the list elements are written over the running frame from its base upwards
+    ([for (top=fp-j+i-1; pairp(tmp2); tmp2=cdr(tmp2), top--) stack[top] = car(tmp2)]: the first
+    element ends up on top), [top = fp+i-j], the procedure is pushed and make_call entered with the
+    running frame's own return information.  A circular or improper list is the error
+    "apply: circular list" / "apply: improper args list".  (The stack check sexp_ensure_stack of
+    line 1359 is the subject of [ensure_stack]; the model stack is a list.) *)
+Definition apply1_step (s : state) : outcome :=
+  match stk s, frame_info s with
+  | proc :: lst :: _, Some (j, rip, rself, rfp) =>
+      match list_of_heap (S (length (heap s))) (heap s) lst with
+      | None => Fail EType
+      | Some args =>
+          if fp s <? j then Fail EStuck
+          else make_call s proc (args ++ below (fp s - j) (stk s)) (length args) rip rself rfp
+      end
+  | _, _ => Fail EStuck
+  end.
